@@ -672,7 +672,7 @@ class Scanner:
         for node, segs in final:
             self.units.append({"mod": mod.rel, "modname": mod.name, "cls": cls.name if cls is not None else None,
                                "func": cx.qual(), "top": top_name(cx), "line": node.lineno, "segs": segs,
-                               "kind": type(node).__name__})
+                               "kind": type(node).__name__, "fnref": (mod, cls, fn, cx)})
         # parse_xml roots
         for node in own:
             if isinstance(node, ast.Call) and isinstance(node.func, ast.Name) and node.func.id == "parse_xml":
@@ -701,7 +701,8 @@ class Scanner:
                 if is_xml(segs):
                     # template built in a way the unit scan did not see: make it a unit of its own
                     self.units.append({"mod": mod.rel, "modname": mod.name, "cls": cls.name if cls is not None else None,
-                                       "func": cx.qual(), "top": top_name(cx), "line": node.lineno, "segs": segs, "kind": "parse_xml-arg"})
+                                       "func": cx.qual(), "top": top_name(cx), "line": node.lineno, "segs": segs, "kind": "parse_xml-arg",
+                                       "fnref": (mod, cls, fn, cx)})
                 else:
                     self.unmodelled.append("%s:%s line %d: parse_xml of a spliced string that is not a recognised template: %s" % (
                         mod.rel, cx.qual(), node.lineno, ast.unparse(arg)[:80]))
@@ -788,6 +789,88 @@ def own_nodes_defs(fn):
         else:
             walk(st)
     return out
+
+
+# =============================================================================== provenance of untainted holes
+# Expressions that are known to be made by the library (never caller text).  An untainted hole
+# whose value can come from anything else is reported as unmodelled: either an entry point is
+# missing from the registry, or this table has to be extended after looking at the code.
+LIBRARY_MADE = [
+    (r"(^|[._])r[Ii]d$|_rIds\[\d\]$|\.add_chart_part\(|\.add_embedded_ole_object_part\(",
+     "relationship id made by the package (rId<n>; xsd:ID when loaded)"),
+    (r"^self\._series\.(name_ref|values_ref|categories_ref|x_values_ref|y_values_ref|bubble_sizes_ref)$",
+     "worksheet range reference computed by the workbook writer"),
+    (r"^series\.index$|^categories\.leaf_count$", "integer"),
+    (r"^value$|^category\.numeric_str_val\(self\._date_1904\)$", "number of a data point / numeric category"),
+    (r"^nsmap\['\w+'\]$", "namespace constant"),
+    (r"^autoshape_type\.(prst|basename)$", "token / name from pptx.spec.autoshape_types (basename is escaped with the quot entity)"),
+    (r"^self\._next_ph_name\(ph_type, id_, orient\)$", "placeholder name made from the basename table and integers"),
+]
+
+
+class Provenance:
+    def __init__(self, sc):
+        self.sc = sc
+        self.funcs = []
+        for rel, mod in sorted(sc.mods.items()):
+            for cls, fn, parent in iter_functions(mod):
+                self.funcs.append((mod, cls, fn, parent))
+        self.calls = {}
+        for mod, cls, fn, parent in self.funcs:
+            for node in own_nodes(fn):
+                if isinstance(node, ast.Call):
+                    f = node.func
+                    nm = f.attr if isinstance(f, ast.Attribute) else (f.id if isinstance(f, ast.Name) else None)
+                    if nm:
+                        self.calls.setdefault(nm, []).append((mod, cls, fn, parent, node))
+
+    def leaves(self, mod, cls, fn, cx, pname, depth=0, seen=None):
+        """Opaque expressions a parameter can receive through the call sites found in the package."""
+        seen = seen if seen is not None else set()
+        key = (mod.rel, cx.qual(), pname)
+        if key in seen:
+            return []
+        if depth > 6:
+            return ["<call chain deeper than 6 for %s>" % pname]
+        seen.add(key)
+        pos = [p.arg for p in fn_params(fn) if p.arg not in ("self", "cls")]
+        sites = self.calls.get(fn.name, [])
+        if not sites:
+            return ["<no call site of %s>" % fn.name]
+        out = []
+        for m2, c2, f2, par2, call in sites:
+            arg = None
+            if pname in pos and pos.index(pname) < len(call.args):
+                arg = call.args[pos.index(pname)]
+            for kw in call.keywords:
+                if kw.arg == pname:
+                    arg = kw.value
+            if arg is None:
+                continue
+            cx2 = self.sc._ctx_for(m2, c2, f2, par2)
+            try:
+                segs = self.sc.ev(arg, cx2)
+            except Unmod as u:
+                out.append("<%s>" % u)
+                continue
+            for k, v in segs:
+                if k != "hole" or v.cls in ("int", "const", "enum"):
+                    continue
+                if v.cls == "param":
+                    out += self.leaves(m2, c2, f2, cx2, v.src, depth + 1, seen)
+                else:
+                    out.append(v.src)
+        return out
+
+    def judge(self, unit, hole):
+        """-> (leaves, list of leaves outside the library-made table)"""
+        mod, cls, fn, cx = unit["fnref"]
+        if hole.cls == "param":
+            lv = sorted(set(self.leaves(mod, cls, fn, cx, hole.src)))
+        else:
+            lv = [hole.src]
+        bad = [x for x in lv if not any(re.search(rx, x) for rx, _why in LIBRARY_MADE)]
+        return lv, bad
 
 
 # =============================================================================== template lexer
@@ -1766,6 +1849,7 @@ def main():
             if e.get("property") == "C05" and e.get("status") == "known" and str(e.get("signature", "")).startswith("sink:"):
                 known_sigs.add(e["signature"])
     sinks, comps, const_holes = [], [], []
+    prov = Provenance(sc)
     for u in units:
         for hi, (h, info) in enumerate(u["holes"]):
             where = "%s:%s line %d" % (u["mod"], u["func"], u["line"])
@@ -1800,6 +1884,12 @@ def main():
                     continue
             elif u["matches"] > 0:
                 esc, origin = "NotText", "library-made value (no caller string reached it in the entry-point run)"
+                lv, bad = prov.judge(u, h)
+                if bad:
+                    unmodelled.append("%s: no entry point reaches %r, but it can receive %s, which is not in the library-made table "
+                                      "(a missing entry point, or extend LIBRARY_MADE)" % (where, h.src, bad))
+                    continue
+                origin += "; sources: " + (", ".join(lv) if lv else "literals and integers only")
             else:
                 unmodelled.append("%s: hole %r was never exercised by the entry-point run (function calls: %d)" % (where, h.src, u["calls"]))
                 continue
